@@ -135,6 +135,8 @@ class Stats(object):
 def execute(suite, case, known, stats=None, timeout=None):
     """Run one case.  Returns Info or raises Violation / HarnessError."""
     timeout = timeout or getattr(suite, 'case_timeout', 120)
+    if getattr(suite, '_hang_seen', False):
+        timeout = min(timeout, 2)  # keep shrinking of a confirmed hang fast
     old = signal.signal(signal.SIGALRM, _alarm)
     signal.setitimer(signal.ITIMER_REAL, timeout)
     try:
@@ -157,6 +159,7 @@ def execute(suite, case, known, stats=None, timeout=None):
         if confirm is not None:
             verdict = confirm(case)
             if verdict:
+                suite._hang_seen = True
                 v = Violation('hang', verdict)
                 hit = _match_known(suite, case, v, known)
                 if hit is None:
